@@ -441,6 +441,41 @@ def run(ctx):
                "%s marks its result safe when the input was (preserve_safety) on some paths but returns %s on another: a "
                "safe (already escaped) input comes back as a plain string there and is escaped a second time when printed"
                % (root_.split("::")[-1], plain), g_.loc)
+    # ---- S4c (after seed C02-9): the other direction of S4.  Text captured while escaping is on is already escaped: where
+    # it becomes a value it is marked safe, or it is escaped a second time when it is printed.  If the function that ends
+    # a capture hands out the bare text (`end_capture() -> Option<String>`), every site that uses that text must have a
+    # safe-marking alternative for it (`from_safe_string` fed from that very result, under the auto-escape test S4 checks);
+    # a site that only knows `Value::from` (the result of a recursive `loop(..)` in expression position) is reported.
+    enders = []
+    for f in prog.fns.values():
+        if f.crate != "minijinja" or f.kind == "closure":
+            continue
+        pops = [c for c in f.calls() if c.name == "alloc::vec::Vec::pop" and c.args and any(
+            "capture_stack" in o.proj for o in flow.origins(f, c.args[0]))]
+        if pops and "minijinja::value::Value" not in f.locals[0].get("s", ""):
+            enders.append(f)
+    for e in enders:
+        seen_hosts = set()
+        for site in prog.callers().get(e.path, []):
+            if site.fn.path in seen_hosts:
+                continue
+            seen_hosts.add(site.fn.path)
+            g = inline.view(prog, site.fn, keep=S2_KEEP + ("end_capture", "begin_capture", "from_safe_string", e.path.split("::")[-1]))
+            k_site = 0
+            for c in sorted(g.calls(), key=lambda q: q.bb):
+                if c.name != e.path or c.dest is None:
+                    continue
+                k_site += 1
+                fed = lambda k: any(o.kind == "call" and o.call.bb == c.bb for a in k.args for o in flow.origins(
+                    g, a, through_calls=lambda q: 0 if q.name.split("::")[-1] in ("map", "unwrap_or_default", "unwrap", "take", "unwrap_or") else None))
+                users = [k for k in g.calls() if k.bb != c.bb and fed(k)]
+                if not users:
+                    continue        # the text is thrown away (a discarded capture)
+                marks = [k for k in users if k.name == SAFE]
+                ctx.ob("C02.S4.captured-text-has-a-safe-marking-path", "%s|end_capture#%d" % (site.fn.path, k_site),
+                       bool(marks), "%s turns the text of a finished capture into a value (%s) without a safe-marking alternative: "
+                       "output captured under auto-escaping is already escaped and would be escaped again when printed"
+                       % (site.fn.path.split("::")[-1], sorted({k.name.split("::")[-1] for k in users})), g.where(c.bb))
     # ---- S3 / S4
     refs = query.fn_refs(prog).get(SAFE, [])
     ctx.floor("C02.S3 from_safe_string sites", len(refs), 14)
